@@ -318,6 +318,153 @@ def add_visitors(pack, active_known):
     c.ensures("the operator rewrite is applied to the node's callee and the node after its children were visited",
               lambda a: a.result == a.eng.opt_res(fld(gv(a), a.node, "func"), a.node))
 
+    # ------------------------------------------------------------------ R4: global declarations, one context per function scope
+    # Python: a `global` statement applies to the code block it appears in; a nested function does not inherit the
+    # declarations of the enclosing one.  The pass keeps a stack of per-scope name sets (self._global_ctx).
+    from pyvc import lib
+
+    ANYK = z3.Int("any_address")
+    ANYNAME = z3.Const("any_name", V.Val)
+
+    def ctx_stack(st, self_):
+        return lst(st, fld(st, self_, "_global_ctx"))
+
+    def set_of(st, ref):
+        return z3.Select(st.sets, V.Val.a(ref))
+
+    def r4_setup(eng, st):
+        vsetup(eng, st)
+        lib.install(eng)
+        eng.class_id(set)
+        lid = eng.class_id(list)
+        # the deque of scopes is used as a stack (append / pop / [-1]): modelled as a list
+        eng.field_types[("PythonASTOptimizer", "_global_ctx")] = lambda v: (z3.And(V.is_ref(v), V.cls_of(V.Val.a(v)) == lid), list)
+
+        def generic_visit_scoped(e, s, args, k):
+            """generic_visit as above; in addition the visited children may declare names in the *current* scope
+            (by visit_Global's contract they only add names to the set on top of the stack) and leave the stack of
+            scopes as it was (by visit_FunctionDef's contract, inductively)."""
+            self_, node = args
+            s.ghost["gv_pre"] = s.copy()
+            stack_ref = z3.Select(s.field_array("_global_ctx"), V.Val.a(e.lift(self_, s)))
+            stack = z3.Select(s.lists, V.Val.a(stack_ref))
+            e.havoc_heap(s, [f for f in CHILD_FIELDS])
+            s.lists = z3.Store(z3.Const(V.fresh_name("lists_after_generic_visit"), s.lists.sort()), V.Val.a(stack_ref), stack)
+            for f in ("body", "orelse", "finalbody", "handlers", "decorator_list", "names", "args", "keywords"):
+                # the stack of scopes is private to the optimizer: no child list of an AST node is that list
+                s.assume(z3.Select(s.field_array(f), V.Val.a(e.lift(node, s))) != stack_ref)
+            top = stack[z3.Length(stack) - 1]
+            grown = z3.Const(V.fresh_name("scope_after_children"), z3.ArraySort(V.Val, z3.BoolSort()))
+            kk = z3.Const(V.fresh_name("k"), V.Val)
+            s.assume(z3.ForAll([kk], z3.Implies(z3.Select(z3.Select(s.sets, V.Val.a(top)), kk), z3.Select(grown, kk))))
+            s.sets = z3.Store(s.sets, V.Val.a(top), grown)
+            s.ghost["gv"] = s.copy()
+            yield s, node
+
+        eng.method_models[(Opt, "generic_visit")] = Model("NodeTransformer.generic_visit (scoped)", generic_visit_scoped)
+
+    def stack_wf(a):
+        """the scope stack is a non-empty list of distinct sets, none of which is the list of names of the node"""
+        S = ctx_stack(a.pre.st, a.self)
+        i, j = z3.Ints("i j")
+        sid = a.eng.class_id(set)
+        top = S[z3.Length(S) - 1]
+        return z3.And(z3.Length(S) >= 1, V.is_ref(top), V.cls_of(V.Val.a(top)) == sid,
+                      fld(a.pre.st, a.self, "_global_ctx") != fld(a.pre.st, a.node, "names" if "Global" in a.eng.cur_func_key else "body"))
+
+    c = visitor("visit_Global", ast.Global)
+    c.setup_.clear()
+    c.setup(r4_setup)
+    c.requires("the scope stack is not empty, its top is a set, and it is not the node's list of names", stack_wf)
+
+    def global_post(a):
+        pre, post = a.pre.st, a.post.st
+        S = ctx_stack(pre, a.self)
+        top = S[z3.Length(S) - 1]
+        G = set_of(pre, top)
+        declared = lib.seq_members(lst(pre, fld(pre, a.node, "names")))
+        new = z3.And(z3.Select(declared, ANYNAME), z3.Not(z3.Select(G, ANYNAME)))
+        r = a.result
+        # (stated for the arbitrary name ANYNAME: a dropped statement declared nothing new; a kept one lists exactly
+        # the new names, of which there is at least one)
+        kept = z3.And(exact(a.eng, r, ast.Global), z3.Select(lib.seq_members(lst(post, fld(post, r, "names"))), ANYNAME) == new,
+                      z3.Length(lst(post, fld(post, r, "names"))) > 0)
+        return z3.And(
+            z3.If(V.is_none(r), z3.Not(new), kept),
+            ctx_stack(post, a.self) == S,
+            z3.Select(set_of(post, top), ANYNAME) == z3.Or(z3.Select(G, ANYNAME), z3.Select(declared, ANYNAME)),
+            z3.Implies(z3.And(ANYK <= 0, ANYK != V.Val.a(top)), z3.Select(post.sets, ANYK) == z3.Select(pre.sets, ANYK)),
+        )
+
+    ANYNAME2 = z3.Const("any_name2", V.Val)
+    c.ensures("R4: the statement keeps exactly the names not yet declared in the current scope (dropped when none is left); "
+              "the current scope then also holds the declared names; no other scope changes", global_post)
+
+    c = visitor("visit_FunctionDef", ast.FunctionDef)
+    c.setup_.clear()
+    c.setup(r4_setup)
+    c.requires("the scope stack is well-formed", stack_wf)
+
+    def fresh_scope(a):
+        pre = a.pre.st
+        g0 = a.post.st.ghost["gv_pre"]
+        S0, S1 = ctx_stack(pre, a.self), ctx_stack(g0, a.self)
+        t = S1[z3.Length(S1) - 1]
+        return z3.And(S1 == z3.Concat(S0, z3.Unit(t)), V.is_ref(t), V.Val.a(t) > 0, V.cls_of(V.Val.a(t)) == a.eng.class_id(set),
+                      z3.Not(z3.Select(set_of(g0, t), ANYNAME)),
+                      z3.Implies(ANYK <= 0, z3.Select(g0.sets, ANYK) == z3.Select(pre.sets, ANYK)))
+
+    c.ensures("R4: the body of a function is visited in a new scope that is empty (global declarations are per function: "
+              "nothing is inherited from the enclosing scopes) on top of the unchanged enclosing scopes", fresh_scope)
+    c.ensures("R4: afterwards the enclosing scopes are exactly as before",
+              lambda a: z3.And(ctx_stack(a.post.st, a.self) == ctx_stack(a.pre.st, a.self), fld(a.post.st, a.self, "_global_ctx") == fld(a.pre.st, a.self, "_global_ctx"),
+                               z3.Implies(ANYK <= 0, z3.Select(a.post.st.sets, ANYK) == z3.Select(a.pre.st.sets, ANYK))))
+    c.ensures("a FunctionDef with the same name, arguments, decorators and return annotation whose body is R2-filtered",
+              lambda a: z3.And(exact(a.eng, a.result, ast.FunctionDef),
+                               *[fld(a.post.st, a.result, f) == fld(gv(a), a.node, f) for f in ("name", "args", "decorator_list", "returns")],
+                               filtered(a, fld(a.post.st, a.result, "body"), fld(gv(a), a.node, "body"))))
+
+    def rp_fd(m, ctx, ob):
+        return R4_REPLAY
+
+    c.replay(rp_fd)
+    c.replay_without_model = True
+
+
+R4_REPLAY = r'''
+import ast
+from basilisp.lang.compiler import optimizer
+src = """
+x = 0
+def outer():
+    global x
+    x = 1
+    def inner():
+        global x
+        x = 2
+    return inner
+def twice():
+    global y
+    global y
+    y = 5
+outer()()
+twice()
+"""
+out = []
+for optimise in (False, True):
+    tree = ast.parse(src)
+    if optimise:
+        tree = ast.fix_missing_locations(optimizer.PythonASTOptimizer().visit(tree))
+    env = {}
+    try:
+        exec(compile(tree, "<c15-r4>", "exec"), env)
+        out.append((env.get("x"), env.get("y")))
+    except Exception as e:
+        out.append("raised " + type(e).__name__)
+print("module globals (x, y) after a nested function re-declares `global x`: unoptimised", out[0], " optimised", out[1])
+print("REPRODUCED" if out[0] != out[1] else "not reproduced")
+'''
+
 
 IF_REPLAY = r'''
 import ast
